@@ -123,7 +123,7 @@ def correspond(ctx, scale=1, variants=None, use_oracle=False):
                     samples.append({"binding": b, "ops": ops, "block_sizes": [r.count(" ") for _, r, _ in ex if r.startswith("b ")]})
     return {"evaluations": evaluations, "distinct_nontrivial": len(sigs),
             "rule": "exhaustive starts 0..799 x 5 hint placements (cached-prime table, 719/721 hand-over); random forward histories (next, next-to-buffer-edge, jump_to) with sieve sizes %s; generate_next_primes block sequences at magnitudes up to 2^64 compared with an independent segmented sieve / Miller-Rabin. distinct = distinct (binding, build, transition kinds / sieve size, magnitude)" % SIEVE_SIZES,
-            "samples": samples, "mismatches": mismatches[:20], "distribution": dist, "variants": list(variants)}
+            "samples": samples, "mismatches": sorted(mismatches, key=lambda m: 0 if m.get("failing_input") else 1)[:20], "distribution": dist, "variants": list(variants)}
 
 
 def search(ctx, broken):
